@@ -1,6 +1,9 @@
 import Driver.Wire
 import Marwood.Transform.Model
 import Marwood.Spec.Match
+import Marwood.Transform.Driver
+import Marwood.Spec.ExpandAll
+import Marwood.Gen.Prelude
 /-!
 Driver commands of the Transform area (C17).
 
@@ -10,6 +13,17 @@ Driver commands of the Transform area (C17).
 * `tr-gap <def> <use>`             `gap` | `nogap`: does some rule meet `Spec.Match.zeroRepTail` on this use
 * `spec-tr-use <def> <use>`        R7RS spec (`Spec.Match`)            → `ok <datum>` | `nomatch` | `mismatch` | `malformed` | `malformed-def`
 The two datums travel in one token list (prefix code, so the boundary is unambiguous).
+
+The expansion driver (`Vm::transform`, T17.3), in a `Vm` that has loaded the prelude and then evaluated `k`
+top-level `define-syntax` forms:
+* `tr-expand <k> <def>… <form>`              model `Transform.expandForm` (table: prelude macros, then the accepted
+                                              definitions, later ones first) → `D<k bits> ok <datum>` | `D<bits> err <class>` |
+                                              `D<bits> panic` | `hang`; bit i = definition i was accepted
+* `spec-tr-expand <bits> <k> <def>… <form>`  R7RS `Spec.ExpandAll.specExpandAll`; only the definitions the implementation
+                                              accepted (`bits`) are installed (rejecting a definition is always allowed)
+                                              → `D<bits> ok <datum>` | `D<bits> nomatch|mismatch|malformed` | `hang`
+* `tr-expand-why <bits> <k> <def>… <form>`   which test of `Spec.ExpandAll.expandGuard` excludes the form:
+                                              `ok` | `use` | `binding` | `template`
 -/
 namespace Marwood.Driver.Transform
 open Marwood Marwood.Wire Marwood.Transform
@@ -29,8 +43,88 @@ def dec2 (args : List String) : Option (Datum × Datum) := do
   let (u, rest) ← decDatum rest
   if rest.isEmpty then pure (d, u) else none
 
+/-- nested expansions the driver commands allow before answering `hang` -/
+def expandFuel : Nat := 200
+
+/-- the macros of `prelude.scm`, in file order (a keyword defined twice: the later definition wins) -/
+def preludeTable : MacroTable := tableOf (Gen.Prelude.macros.map (·.2))
+
+def installSpec (T : Spec.ExpandAll.STable) (d : Datum) : Spec.ExpandAll.STable :=
+  match d, Spec.Match.parseDef d with
+  | .pair _ (.pair (.sym k) _), some rs => (k, rs) :: T
+  | _, _ => T
+
+def preludeSpecTable : Spec.ExpandAll.STable := (Gen.Prelude.macros.map (·.2)).foldl installSpec []
+
+def decN : Nat → List String → Option (List Datum × List String)
+  | 0, rest => some ([], rest)
+  | n + 1, args => do
+    let (d, rest) ← decDatum args
+    let (ds, rest) ← decN n rest
+    pure (d :: ds, rest)
+
+/-- `<k> <def>… <form>` -/
+def decSession (args : List String) : Option (List Datum × Datum) :=
+  match args with
+  | k :: rest => do
+    let k ← k.toNat?
+    if k > 64 then none else
+    let (defs, rest) ← decN k rest
+    let (form, rest) ← decDatum rest
+    if rest.isEmpty then pure (defs, form) else none
+  | [] => none
+
+def bitsOf (bs : List Bool) : String := "D" ++ String.ofList (bs.map fun b => if b then '1' else '0')
+
+def decBits (s : String) (k : Nat) : Option (List Bool) :=
+  match s.toList with
+  | 'D' :: cs =>
+    if cs.length = k ∧ cs.all (fun c => c = '0' ∨ c = '1') then some (cs.map (· = '1')) else none
+  | _ => none
+
+/-- the specification's table: prelude, then the definitions the implementation accepted -/
+def specTableFor (bits : List Bool) (defs : List Datum) : Spec.ExpandAll.STable :=
+  (bits.zip defs).foldl (fun T bd => if bd.1 then installSpec T bd.2 else T) preludeSpecTable
+
 def handle (cmd : String) (args : List String) : Option String :=
   match cmd with
+  | "tr-expand" => do
+    let (defs, form) ← decSession args
+    -- every definition is a top-level form of the session: transformed (returned as it is), then run
+    let step : MacroTable × List Bool → Datum → MacroTable × List Bool := fun (M, bs) d =>
+      match expandForm M expandFuel d with
+      | .ok e =>
+        let M' := installMacro M e
+        (M', bs ++ [decide (M'.length = M.length + 1)])
+      | _ => (M, bs ++ [false])
+    let (M, bits) := defs.foldl step (preludeTable, [])
+    pure (match expandForm M expandFuel form with
+      | .fuel => "hang"
+      | r => bitsOf bits ++ " " ++ showRes (fun e => "ok " ++ encDatum e) r)
+  | "spec-tr-expand" =>
+    match args with
+    | b :: rest => do
+      let (defs, form) ← decSession rest
+      let bits ← decBits b defs.length
+      pure (match Spec.ExpandAll.specExpandAll expandFuel (specTableFor bits defs) form with
+        | .ok e => b ++ " ok " ++ encDatum e
+        | .noMatch => b ++ " nomatch"
+        | .mismatch => b ++ " mismatch"
+        | .malformed => b ++ " malformed"
+        | .fuel => "hang")
+    | [] => none
+  | "tr-expand-why" =>
+    match args with
+    | b :: rest => do
+      let (defs, form) ← decSession rest
+      let bits ← decBits b defs.length
+      let T := specTableFor bits defs
+      let g := fun sel => Spec.ExpandAll.expandGuardSel sel expandFuel T form
+      pure (if !g ⟨true, false, false⟩ then "use"
+        else if !g ⟨false, true, false⟩ then "binding"
+        else if !g ⟨false, false, true⟩ then "template"
+        else "ok")
+    | [] => none
   | "tr-def" => do
     let (d, rest) ← decDatum args
     if !rest.isEmpty then none
